@@ -389,8 +389,13 @@ func runC07(k *c07Case, seed uint64, ae string) (*c07Obs, []byte) {
 	}
 	c.Add(ws)
 	plain := http.HandlerFunc(func(w http.ResponseWriter, r *http.Request) { writeChunks(w, r, -1) })
+	if k.Payload%3 == 1 {
+		// the switch had another position while the handlers were registered; the position at request time counts
+		c.EnableContentEncoding(!k.Cont)
+	}
 	c.Handle("/h/", plain)
 	c.HandleWithFilter("/hf/", plain)
+	c.EnableContentEncoding(k.Cont)
 
 	req := rt.Req{Method: "GET", Path: "/e/ok", Hdr: map[string]string{}}
 	if k.Forward && k.Outcome == "ok" {
